@@ -56,6 +56,15 @@ CLAIMED['C19'] = (
     'from the CGGI19 noise formulas evaluated on the returned fields.',
     TRUST + '; noise formulas are the CGGI19 ones written in the harness', 'bounded symbolic execution (clang IR -> C -> CBMC) + SAT/SMT portfolio', 'DESIGN.md section 4, C19')
 
+CLAIMED['C04'] = (
+    'The whole bootstrapping chain of the real code (modulus switch, X^(2N-barb) rotation of the test polynomial, blind rotation with the real CMux '
+    'steps / external products / gadget decomposition, coefficient-0 extraction, key switch) is executed symbolically for all four entry points and '
+    'for blind-rotate-and-extract: input sample (a,b), output message, test polynomial, exponents and key bits symbolic; the result phase equals +-mu '
+    '(resp. the p-th coefficient of the anticyclic extension of v) for all 2N values of p within one gadget truncation per CMux step, against a '
+    'library-independent rounding formula. Bootstrapping key mask-free and noiseless; (N,n) in {(4,1),(2,2),(1,2)} quick, incl. n > N.',
+    TRUST + '; A2 exact ring back-end; mask arithmetic of the same functions is decided under C09/C14/C08 (the accumulator masks stay zero here)',
+    'bounded symbolic execution (clang IR -> C -> CBMC) + SAT portfolio', 'DESIGN.md section 4, C04')
+
 NOT_APPLICABLE = {
     'C02': 'statistical claim (mean/stdev/tail of the phase error of the real FFT pipeline at N=1024): a solver decides for-all/exists and the for-all version is false; its deterministic mechanisms are decided under C12, C08, C07, C19, C01',
     'C10': 'double-precision rounding error of 2048-point FFTs, three of five back-ends being hand-written AVX/FMA assembly or FFTW: bit-precise FP is out of solver reach beyond N~2 and a sound real-arithmetic over-approximation exceeds the stated 2 units',
